@@ -58,6 +58,14 @@ def finOnceLog (log : List Ev) : Bool := nodupB (finRuns log)
 /-- C03: every stored finalizer has run (to be asked of a final state with `done`) -/
 def finAllLog (log : List Ev) : Bool := (appendedFins log).all (finRuns log).contains
 
+/-- C07: a terminal call (Error, Complete) that has returned on a subscriber nobody unsubscribed was delivered —
+    not swallowed, not handed to the drop hook: some terminal callback has begun (asked when the destination is
+    not nil) -/
+def terminalLog (log : List Ev) : Bool :=
+  !(log.any fun e => match e with | .ret _ (.error _) _ => true | .ret _ .complete _ => true | _ => false)
+  || (log.any fun e => match e with | .call _ .unsubscribe => true | _ => false)
+  || (log.any fun e => match e with | .cbBegin _ .error _ => true | .cbBegin _ .complete _ => true | _ => false)
+
 def ApiCall.closes : ApiCall → Bool
   | .error _ | .complete | .unsubscribe => true
   | _ => false
